@@ -29,7 +29,8 @@ def inline_builtin(expr: Expression, rules: Mapping[str, Rule]) -> Expression:  
 def inline_silent_rules(expr: Expression, rules: Mapping[str, Rule]) -> Expression:
     """Inline silent rules."""
     if isinstance(expr, Identifier):
-        rule = rules[expr.value]
-        if rule.modifier & SILENT:
+        rule = rules.get(expr.value)
+        # A reference to an undefined rule is left for parse time to report.
+        if rule and rule.modifier & SILENT:
             return rule.expression
     return expr
